@@ -9,6 +9,23 @@ from . import dates as rd
 
 NUM_TEXT = re.compile(r'\A[+-]?(\d+(\.\d*)?|\.\d+)([eE][+-]?\d+)?\Z')        # scientific notation spells a number too (it is how the library's own & writes large and small floats)
 ISO_TEXT = re.compile(r'\A\d{4}-\d{2}-\d{2}([ T]\d{2}:\d{2}:\d{2})?\Z')
+MONTHS = ['January', 'February', 'March', 'April', 'May', 'June', 'July', 'August', 'September', 'October', 'November', 'December']
+_MON = '|'.join(m + '|' + m[:3] for m in MONTHS)
+WORD_DATES = [re.compile(r'\A(?:(?:Mon|Tue|Wed|Thu|Fri|Sat|Sun), )?(?P<d>\d{1,2}) (?P<m>%s) (?P<y>\d{4})\Z' % _MON),        # 20 Nov 2019, 20 November 2019, Wed, 20 Nov 2019
+              re.compile(r'\A(?P<m>%s) (?P<d>\d{1,2}), (?P<y>\d{4})\Z' % _MON)]                                             # Nov 20, 2019
+COMPACT_ISO = re.compile(r'\A(\d{4})(\d{2})(\d{2})T(\d{2})(\d{2})(\d{2})\Z')                                          # 20191120T063000
+
+
+def word_date(v):
+    """the date-time a text spells with its month as an English word, or in compact ISO form; None if it is neither"""
+    for rx in WORD_DATES:
+        m = rx.match(v)
+        if m:
+            return datetime.datetime(int(m.group('y')), [x[:3] for x in MONTHS].index(m.group('m')[:3]) + 1, int(m.group('d')))
+    m = COMPACT_ISO.match(v)
+    if m:
+        return datetime.datetime(*[int(g) for g in m.groups()])
+    return None
 
 
 class Unspecified(Exception):
@@ -45,6 +62,9 @@ def classify(v):
             return 'number', Fraction(v) if ('.' not in v and 'e' not in v.lower()) else Fraction(float(v))
         if ISO_TEXT.match(v):
             return classify(datetime.datetime.fromisoformat(v.replace(' ', 'T')))
+        d = word_date(v)
+        if d is not None:
+            return classify(d)
         return 'badtext', None
     raise Unspecified('value %r' % (v,))
 
